@@ -18,7 +18,10 @@ RULE = ("inputs are tuples of Hermitian blocks U diag(spectrum) U^+ (spectrum pa
         "complex generic}) mapped through the adjoint frame to stacked parameter vectors, at scales 1e-3/1/1e3; "
         "non-trivial = at least one block has a negative eigenvalue or the equality constraint is violated by > 1e-6; "
         "distinct = distinct (type, m, system, tuple, scale)")
-ASSUMPTIONS = ["nearest-point-ness for the PSD cone is decided by the Moreau certificate (complete over competitors); "
+ASSUMPTIONS = ["at scale 1 every input is also handed over Fortran-ordered, as a non-contiguous view and (measurement processes) with "
+               "multi-index outcome shapes, and perturbed inputs feasible + t x (violating direction), t = 1e-6, 1e-9, whose nearest "
+               "point is the feasible point itself (normal-cone argument) are projected at object and variable level with tolerance 1e-11",
+               "nearest-point-ness for the PSD cone is decided by the Moreau certificate (complete over competitors); "
                "for the affine set by equality with the pseudo-inverse projection",
                "inputs outside the block alphabet are not covered (the projections are non-linear)"]
 BOUNDS = {"quick": "Q1,Q3 all types, m=2..5 (pool^m tuples with pool cut 19/8/4/3 for m=2/3/4/5); Q2 state/povm m<=3/gate/mprocess m=2 reduced pool",
@@ -96,7 +99,7 @@ def guards(summary):
     g = []
     info = summary["info"]
     for k in ("clipped", "eq_violated", "already_feasible_ineq", "complex_blocks", "degenerate_blocks", "flag_true_checked",
-              "closures_checked"):
+              "closures_checked", "variant_objects", "near_feasible_inputs"):
         if info.get(k, 0) < 1:
             g.append("never seen: " + k)
     return g
@@ -217,6 +220,55 @@ def execute(family, p, seed):
             out.fail("obj.calc_proj_ineq_constraint:raises:%s" % tag, "on feasible point tuple=%r: %s" % (tup, A.fmt_exc(r)))
         elif np.abs(F.stacked(r) - xb).max() > TOL * scale:
             out.fail("obj.calc_proj_ineq_constraint:moves-feasible:%s" % cfg, "tuple=%r scale=%s" % (tup, sc))
+
+        # ---------- the same values handed over in other memory layouts / with a multi-index outcome shape (scale 1 only)
+        if sc == 1.0:
+            variants = [("layout=F", {"layout": "F"}), ("layout=strided", {"layout": "strided"})]
+            if kind == "mprocess":
+                shapes = {2: [(1, 2), (2, 1)], 3: [(1, 3), (3, 1)], 4: [(2, 2), (1, 4), (1, 2, 2)], 5: [(1, 5), (5, 1)]}[m]
+                variants += [("shape=%s" % "x".join(map(str, sh)), {"shape": sh}) for sh in shapes]
+            for vname, vkw in variants:
+                vcls = vname.split("=")[0] + "=" + ("multi-index" if vname.startswith("shape") else vname.split("=")[1])
+                okv, vobj = A.call(F.make, x0, **vkw)
+                if not okv:
+                    out.fail("variant:constructor-raises:%s:%s" % (vcls, cfg), "tuple=%r %s: %s" % (tup, vname, A.fmt_exc(vobj)))
+                    continue
+                out.count("variant_objects")
+                for nm, meth, want in (("eq", "calc_proj_eq_constraint", xa), ("ineq", "calc_proj_ineq_constraint", xb)):
+                    okv, r = A.call(getattr(vobj, meth))
+                    out.ops += 1
+                    out.traces += 1
+                    if not okv:
+                        out.fail("variant:obj.%s:raises:%s:%s" % (nm, vcls, cfg), "tuple=%r %s: %s" % (tup, vname, A.fmt_exc(r)))
+                        continue
+                    good, err = close(F.stacked(r), want, scale)
+                    if not good:
+                        out.fail("variant:obj.calc_proj_%s_constraint:not-nearest:%s:%s" % (nm, vcls, cfg),
+                                 "tuple=%r %s err=%.3g against the reference projection of the same values" % (tup, vname, err))
+                    if "shape" in vkw and tuple(getattr(r, "shape", ())) != tuple(vkw["shape"]):
+                        out.fail("variant:obj.calc_proj_%s_constraint:shape-lost:%s" % (nm, cfg), "%s -> %r" % (vname, getattr(r, "shape", None)))
+            # ---------- inputs that are ALMOST feasible: x_feasible + t * (x0 - x_feasible) has the same nearest point for every t >= 0
+            for t in (1e-6, 1e-9):
+                for nm, meth, want, wv in (("eq", "calc_proj_eq_constraint", xa, "calc_proj_eq_constraint_with_var"),
+                                           ("ineq", "calc_proj_ineq_constraint", xb, "calc_proj_ineq_constraint_with_var")):
+                    dvec = x0 - want
+                    if np.abs(dvec).max() < 1e-6 * scale:
+                        continue
+                    xn = want + t * dvec / np.abs(dvec).max()
+                    out.count("near_feasible_inputs")
+                    okn, r = A.call(getattr(F.make(xn), meth))
+                    okw, rw = A.call(getattr(cls, wv), F.c_sys, F.var_from_stacked(xn, False), on_para_eq_constraint=False)
+                    out.ops += 2
+                    out.traces += 2
+                    for route, okr, got in (("obj", okn, F.stacked(r) if okn else r), ("with_var", okw, rw)):
+                        if not okr:
+                            out.fail("near-feasible:%s.%s:raises:%s" % (route, nm, cfg), "tuple=%r t=%g: %s" % (tup, t, A.fmt_exc(got)))
+                            continue
+                        err = float(np.abs(np.asarray(got, float).ravel() - want).max())
+                        if err > 1e-11 * scale:
+                            out.fail("near-feasible:%s.calc_proj_%s_constraint:not-nearest:%s" % (route, nm, cfg),
+                                     "tuple=%r: input = feasible point + %g x (violating direction); result is %.3g away from the feasible point "
+                                     "it must return" % (tup, t, err))
 
         # ---------- variable level, both flags, and the closures handed to the optimisers
         for flag in (False, True):
